@@ -16,15 +16,17 @@ RULE = (
     "what a standard gzip reader makes of each stream is checked by the harness with compress/gzip), "
     "every registered MTProto service constructor without a case of its own (incl. the key-exchange constructors and client-side "
     "constructors echoed back) and API update objects, plain, gzip-packed once or twice; bad_server_salt / new_session_created; the "
-    "Warnings channel is nil, or buffered with capacity 1 / 1-3 / 64, drained at random moments or never; a handler accepting everything "
-    "is registered in a third of the schedules; the server closes the connection between messages 0-1 times; every 10th schedule is a "
+    "Warnings channel is nil, buffered with capacity 1 / 1-3 / 64 and drained at random moments or never, or unbuffered with a live reader; "
+    "handlers: none, one accepting everything, one that declines, one that declines followed by one that accepts; the server closes the "
+    "connection between messages 0-3 times; every 10th schedule is a "
     "fresh session (key exchange in the same process). Every schedule ends with the closing procedure: run everything that is enabled, "
     "answer what is open, then a probe call of a new caller that must return its answer. The pinned schedules cover every service "
     "constructor one by one, an unbuffered Warnings channel without reader, two closes, close of a freshly keyed session. Each schedule "
     "batch runs in a child process: death of the process is observed by the supervisor and named after the message the receive loop was "
     "working on; a stall - blocked or spinning - is observed by the scheduler's watchdog with a goroutine dump that names the client function the receive "
     "loop is in (after a stall the worker process is replaced). Direct oracles: process alive, no stall, probe "
-    "completed, no plain frame and no second key exchange after a close. Each action's projection must equal the extracted step2's "
+    "completed, every call the server answered (also as a later item of a container whose earlier items cannot be handled) returned, no "
+    "plain frame and no second key exchange after a close. Each action's projection must equal the extracted step2's "
     "(incl. length of the Warnings channel, handler count, connection generation). Non-trivial = distinct schedule with a hostile message "
     "or a close in which a call completed.")
 
